@@ -51,3 +51,34 @@ impl<E: std::fmt::Display> BatchResult for Result<Vec<bytes::Bytes>, E> {
         self.map_err(|e| e.to_string())
     }
 }
+
+/// Watchdog for the mock-driven router harnesses.  The spin budget counts the router's calls into its children;
+/// a router that loops *without* touching a child never spends it.  `POLL_SEQ` is odd while an outer poll is
+/// running; a thread started with `start_watchdog` ends the process (exit code 3, after recording a `poll_end`
+/// with `res = "spin"` and a summary line) when one outer poll has been running for five seconds of real time.
+pub static POLL_SEQ: std::sync::atomic::AtomicU64 = std::sync::atomic::AtomicU64::new(0);
+pub static CUR_RUN: std::sync::atomic::AtomicU64 = std::sync::atomic::AtomicU64::new(0);
+
+pub fn start_watchdog(log: evlog::EvLog, total: usize) {
+    use std::sync::atomic::Ordering;
+    std::thread::spawn(move || {
+        let (mut last, mut same) = (0u64, 0u32);
+        loop {
+            std::thread::sleep(std::time::Duration::from_millis(100));
+            let seq = POLL_SEQ.load(Ordering::SeqCst);
+            if seq % 2 == 1 && seq == last {
+                same += 1;
+            } else {
+                same = 0;
+                last = seq;
+            }
+            if same >= 50 {
+                log.emit("poll_end", serde_json::json!({"res": "spin", "inner": 0, "msg": "one poll has been running for 5 s without returning (watchdog)"}));
+                log.flush();
+                println!("{}", serde_json::json!({"runs": CUR_RUN.load(Ordering::SeqCst), "of": total, "events": log.lines(), "dead": 1, "watchdog": true}));
+                std::process::exit(3);
+            }
+        }
+    });
+}
+
